@@ -581,10 +581,10 @@ impl<'a> Parser<'a> {
                 self.parse_integer(2, "timezone minute")? as i32
             };
             tzminute += tzhour * 60;
-            tzminute *= tzsign;
-            if tzminute > 24 * 60 {
+            if tzminute >= 24 * 60 {
                 return Err(self.parse_error("Timezone offset is too large".to_string()));
             }
+            tzminute *= tzsign;
             datetime.offset = Some(tzminute * 60);
         }
 
